@@ -253,7 +253,7 @@ TypeOf(x, C, P) ==
     \* a handler sees the carried values as constants named by its parameters
     [] e = "try" ->
          IF Fits(TypeOf(x.body, [C EXCEPT !.loop = FALSE, !.ret = ERR], P), x.t)
-            /\ (\A i \in 1..Len(x.hs) : (\E j \in 1..Len(P.exns) : P.exns[j] = x.hs[i].exn)
+            /\ (\A i \in 1..Len(x.hs) : (x.hs[i].exn = "*" \/ \E j \in 1..Len(P.exns) : P.exns[j] = x.hs[i].exn)
                     /\ Len(x.hs[i].ps) \in {0, Len(ExnPayload(P, x.hs[i].exn))}      \* a handler may ignore the carried value
                     /\ Fits(TypeOf(x.hs[i].body,
                                    IF x.hs[i].ps = <<>> THEN [C EXCEPT !.loop = FALSE, !.ret = ERR]
